@@ -1,5 +1,58 @@
-(* C06 -- placeholder while the proofs are being written (replaced below). *)
-From KS Require Import lib.Base model.Storage.
+(* C06 -- Broker restart after any crash point loses no acknowledged record.
+   Over model/Storage.v (fixes applied, see C01.v). ECrash may occur between any two
+   events (between the segment put, the index put, the in-memory commit, the store
+   update and the response); ERestart is getPartitionLog's NextOffset + RestoreFromS3 +
+   offset sync (the sync may fail), ERestartFault any transient S3/store error during
+   it. Leftover objects of interrupted uploads are ordinary S3 contents of the model. *)
+From KS Require Import lib.Base model.Storage proofs.StorageProofs.
 Open Scope Z_scope.
-Example C06_nonvacuous : run (init (mkCfg 0 0 0 1)) [] <> None.
-Proof. vm_compute. discriminate. Qed.
+
+(* (1) every batch acknowledged before the crash is, in any later live state, in an S3
+       segment with an index (the objects RestoreFromS3 registers), and its offsets lie
+       below the next offset the restarted log will assign *)
+Theorem C06_restore_complete : forall c evs1 evs2 s1 s,
+  run (init c) evs1 = Some s1 -> run s1 evs2 = Some s -> s_live s = true ->
+  forall b, In b (s_acked s1) -> durable s b /\ b_last b < s_next s.
+Proof. exact restart_complete. Qed.
+Print Assumptions C06_restore_complete.
+
+(* (2) no reuse: in every live state the next offset is past every acknowledged offset
+       and not below any high watermark ever published (offsets a consumer may have seen) *)
+Theorem C06_no_reuse : forall c evs s,
+  run (init c) evs = Some s -> s_live s = true ->
+  (forall b, In b (s_acked s) -> b_last b < s_next s) /\
+  (forall v, In v (s_pubs s) -> v <= s_next s) /\ s_store s <= s_next s.
+Proof. exact no_reuse. Qed.
+Print Assumptions C06_no_reuse.
+
+(* ... and a new append gets exactly that next offset as its base *)
+Theorem C06_append_base : forall c evs s t raw s' lod cnt,
+  run (init c) evs = Some s -> step s (EAppend t raw) = Some s' -> parse_hdr raw = Some (lod, cnt) ->
+  log s' = log s ++ [mkBatch (s_next s) lod cnt raw] /\ s_next s' = s_next s + lod + 1 /\ 0 <= lod.
+Proof. exact append_extends. Qed.
+Print Assumptions C06_append_base.
+
+(* (3) acknowledged data is never hidden or overwritten later on, whatever leftovers exist *)
+Theorem C06_acked_stays : forall c evs1 evs2 s1 s,
+  run (init c) evs1 = Some s1 -> run s1 evs2 = Some s ->
+  forall b, In b (s_acked s1) -> durable s b.
+Proof. exact acked_survives. Qed.
+Print Assumptions C06_acked_stays.
+
+(* non-vacuity: crash between segment put and index put of the second flush (orphan
+   .kfs at base 1), lost store update, restart (orphan skipped, offsets resynced),
+   new append reuses base 1 and overwrites the orphan; the acked batch stays. *)
+Example C06_nonvacuous :
+  let r := fun m => hdr61 49 0 1 ++ [m] in
+  let evs := [EAppend 0%nat (r 1); EFlushBegin 0%nat; EUpSeg 0%nat true; EUpIdx 0%nat true; ECommit 0%nat;
+              ECallback 0%nat false; ERespond 0%nat;
+              EAppend 0%nat (r 2); EFlushBegin 0%nat; EUpSeg 0%nat true; ECrash; ERestartFault; ERestart true;
+              EAppend 1%nat (r 3); EFlushBegin 1%nat; EUpSeg 1%nat true; EUpIdx 1%nat true; ECommit 1%nat] in
+  match run (init (mkCfg 0 0 0 1)) (firstn 13 evs), run (init (mkCfg 0 0 0 1)) evs with
+  | Some s1, Some s => map b_base (s_acked s1) = [0] /\ s_store s1 = 1 /\ s_next s1 = 1 /\
+                       map fst (s_seg s1) = [0; 1] /\ map fst (s_idx s1) = [0] /\
+                       forallb (durableb s) (s_acked s) = true /\ s_clast s = Some 1 /\
+                       map (fun kv => map b_raw (snd kv)) (s_seg s) = [[r 1]; [r 3]]
+  | _, _ => False
+  end.
+Proof. vm_compute. repeat split. Qed.
